@@ -96,7 +96,7 @@ Definition enc_exit (e:fexit) : Z :=
 Record scenario := mksc {
   sc_rc : rcfg; sc_rules : list (list atom * tout);
   sc_first : list spass; sc_main : list spass; sc_last : list spass;
-  sc_disk : disk; sc_sch : sched; sc_bug : nat; sc_extra : nat
+  sc_disk : disk; sc_sch : sched; sc_bug : nat; sc_extra : nat; sc_start : option N
 }.
 
 (* run a list of passes one by one (as CVise._run_additional_passes), reporting per pass *)
@@ -112,11 +112,11 @@ Fixpoint run_each (rc:rcfg) (test:disk -> tout) (ps:list spass) (m:mst) : list Z
   end.
 Definition sc_run_each (s:scenario) : list Z :=
   run_each (sc_rc s) (run_rules (sc_rules s)) (sc_main s)
-           (mkm (sc_disk s) [] (xinit (sc_bug s) (sc_extra s)) (sc_sch s)).
+           (mkm (sc_disk s) [] (xinit (sc_bug s) (sc_extra s)) (sc_sch s) (sc_start s)).
 
 Definition sc_reduce (s:scenario) : list Z :=
   let '(m, e, acc) := reduce nat (run_rules (sc_rules s)) (sc_rc s)
         (map sp_pass (sc_first s)) (map sp_pass (sc_main s)) (map sp_pass (sc_last s))
-        (mkm (sc_disk s) [] (xinit (sc_bug s) (sc_extra s)) (sc_sch s)) in
+        (mkm (sc_disk s) [] (xinit (sc_bug s) (sc_extra s)) (sc_sch s) (sc_start s)) in
   [enc_exit e; zn (x_bugdirs (m_x m)); zn (x_extradirs (m_x m))] ++ enc_disk (m_disk m)
   ++ (zn (length acc) :: flat_map enc_disk acc).
